@@ -151,7 +151,7 @@ fn walk_blocks<F: FnMut(&Block, bool)>(bs: &[Block], f: &mut F) {
     }
 }
 
-const SPECIAL: &str = "*_`[]<>&#+-=|\\~$!";
+const SPECIAL: &str = "*_`[]<>&#+-=|\\~";
 
 fn special_word(s: &str) -> bool {
     if s.chars().any(|c| SPECIAL.contains(c)) {
